@@ -15,6 +15,7 @@
 #include "seams/vfhost.h"
 #include <blocc/bloc_capi.h>
 #include <fstream>
+#include <regex>
 #include <functional>
 #include <sys/stat.h>
 
@@ -76,7 +77,7 @@ static std::string vocabulary_program(Rng& r) {
   if (r.chance(0.05)) { // well-formed on its own: the lock of an outer traversal after an inner traversal of the same table
     s += "vt = tab(3, 1);\nforall fa in vt loop\n  forall fb in vt loop\n    print fb;\n  end loop;\n  " + std::string(r.pick(std::vector<std::string>{"do vt.concat(fa);", "do vt.delete(0);", "vt = tab(9, 2);", "do vt.insert(0, 7);"})) + "\n  print fa;\nend loop;\n";
     return s; }
-  if (r.chance(0.05)) { // errors that carry no position, as the last statement of the text
+  if (r.chance(0.08)) { // errors that carry no position, as the last statement of the text
     s += std::string(r.pick(std::vector<std::string>{"import nosuchmodule;", "import nosuchmodule;\n/* tail */", "import nosuchmodule;  \n\n", "include \"/nonexistent/file.bloc\";", "forall fa in vt loop vt = tab(1, 1); end loop;", "begin function zz() return integer is begin return 1; end; end;"})) + (r.chance(0.5) ? "\n" : "");
     return s; }
   for (int i = 0; i < n; ++i) {
@@ -194,6 +195,7 @@ struct C01 : Profile {
     plan["text"] = enc(text);
     static const char* ROUTES[] = {"library", "library", "library", "capi", "capi", "units", "units", "cli"};
     plan["route"] = ROUTES[r.below(8)];
+    if (!plan.contains("damage") && (text.find("import nosuchmodule;") != std::string::npos || text.find("/nonexistent/file.bloc") != std::string::npos) && r.chance(0.6)) plan["route"] = "capi";   // position-less errors matter where a position is asked for
     std::vector<int> ch; if (r.chance(0.6)) { int n = (int)r.range(1, 40); for (int i = 0; i < n; ++i) ch.push_back((int)r.range(1, r.chance(0.5) ? 6 : 300)); }
     plan["reader"] = json{{"chunks", ch}, {"tail", r.chance(0.5) ? 0 : (int)r.range(1, 100)}, {"line", r.chance(0.5)}};
     return plan;
@@ -204,6 +206,8 @@ struct C01 : Profile {
     auto fail = [&](const std::string& cls, const std::string& msg) { if (res.vclass.empty()) { res.vclass = cls; res.message = msg; } };
     std::string text = dec(plan.value("text", "")), route = plan.value("route", "library"); json rd = plan.value("reader", json::object());
     if (text.find('\0') != std::string::npos) { for (auto& c : text) if (c == '\0') c = ' '; }
+    // the property's domain bounds the requested allocation sizes: a text that asks tab / raw for more than 10^5 elements (token damage can write such a text) is not a trial
+    { static const std::regex big("(tab|raw)[ \t\r\n]*\\([ \t\r\n(-]*[0-9]{6,}", std::regex::icase); if (std::regex_search(text, big)) { ++res.probes["out_of_domain_allocation_request"]; res.trace_hash = ev.hash(); return res; } }
     ++res.probes["route_" + route]; if (plan.value("vocab", false)) ++res.probes["vocab_texts"]; if (plan.contains("sweep")) ++res.probes["sweep_texts"]; if (plan.contains("damage")) { ++res.faults["stream_corrupt"]; res.faulty = true; res.nontrivial = true; }
     auto classify = [&](const Outcome& o, const char* where) {
       ev.add(std::string(where) + ":" + o.str());
